@@ -3,6 +3,7 @@ from fractions import Fraction as F
 
 import numpy as np
 
+import archdispatch
 import archlib
 from core import Driver, Failure, q, ql
 
@@ -122,15 +123,18 @@ def run_cqd(case):
 def run_case(case):
     if case.get("profile") == "cqd":
         return run_cqd(case)
-    return archlib.run_case(case, PROPS)
+    return archdispatch.run_case(case, PROPS)
 
 
 def run(ctx):
-    budget = 8 if ctx.quick else 90
+    budget = 6 if ctx.quick else 70
     ctx.explore("mixed", gen("mixed"), run_case, ctx.n(160, 12000), nontrivial=archlib.nontrivial_c01, time_budget=budget)
     ctx.explore("percell", gen("percell"), run_case, ctx.n(120, 8000), nontrivial=archlib.nontrivial_c01, time_budget=budget)
     ctx.explore("cma", gen("cma", cma=True), run_case, ctx.n(160, 10000), nontrivial=archlib.nontrivial_c01, time_budget=budget)
     ctx.explore("cqd", gen_cqd, run_case, ctx.n(80, 6000), nontrivial=archlib.nontrivial_c01, time_budget=budget)
+    # remaps (stats of the rebuilt contents) and the ProximityArchive cells = len convention
+    ctx.explore("sliding-remaps", archdispatch.gen_sliding, run_case, ctx.n(70, 6000), time_budget=budget)
+    ctx.explore("proximity", archdispatch.gen_prox(), run_case, ctx.n(70, 6000), time_budget=budget)
 
 
 def replay(ctx, case):
